@@ -3,10 +3,7 @@
    parameter by parameter), for every supported challenge and all strings. *)
 From Coq Require Import Lia.
 From ReqV Require Import Lib.Bytes Lib.BytesFacts Model.AuthParam Model.Digest
-     Proofs.AuthParamProofs Proofs.DigestProofs.
-
-(* no double quote, no backslash: what a value written verbatim between quotes must satisfy *)
-Definition clean (s : bytes) : bool := negb (mem_byte dquote s) && negb (mem_byte bslash s).
+     Proofs.AuthParamProofs Proofs.DigestProofs Proofs.ChallengeTextProofs.
 
 Lemma assoc_map_sem k fs :
   assoc_bytes k (map sem_field fs) = option_map fval_sem (assoc_bytes k fs).
@@ -129,5 +126,25 @@ Section WithH.
       + clear -W3. induction fs as [|g r IH]; [reflexivity|].
         cbn [forallb map] in *. apply andb_prop in W3 as [W3 W3']. rewrite (IH W3'), andb_true_r.
         destruct g as [k v]. exact W3.
+  Qed.
+
+  (* end to end over the TEXT on both sides: a challenge as the server wrote it (any order,
+     white space, token or quoted-string form of each value) whose meaning [c] is supported
+     is answered with header text the server's verifier accepts for [c] *)
+  Theorem challenge_text_to_accepted_header pre mid post xs c uri method user pass cnonce :
+    forallb is_chal_ws pre = true -> forallb is_chal_ws mid = true -> forallb is_chal_ws post = true ->
+    forallb piece_ok xs = true -> ends_tight xs ->
+    apply_fields empty_chal (map padded_sem xs) = inl c ->
+    supported c = true -> clean cnonce = true ->
+    exists hdr,
+      create_digest_auth H (render_challenge pre mid post xs) uri method user pass cnonce = inl hdr /\
+      rfc7616_accepts H c uri method user pass cnonce hdr = true.
+  Proof.
+    intros Hpre Hmid Hpost Hok Ht Hc Hsup Hcn.
+    destruct (verifier_accepts c uri method user pass cnonce Hsup Hcn) as [fs [Ha [_ Hacc]]].
+    exists (render_fields fs). split; [|exact Hacc].
+    unfold create_digest_auth.
+    rewrite (parse_challenge_rendered pre mid post xs Hpre Hmid Hpost Hok Ht), Hc, Ha.
+    unfold render_challenge. destruct pre; reflexivity.
   Qed.
 End WithH.
